@@ -32,7 +32,8 @@ def check(case):
     light = case.get('light', False)
     if not light:
         dag.disturb(lib)            # history: inner nodes serialised on their own, builders/slices derived and used
-    for (idx, crc, cache) in boccases.OPTSETS:
+    minimal = case.get('minimal', False)    # 65 536-cell bags in the quick tier: one option set, bytes form, Cell entry point
+    for (idx, crc, cache) in ([(1, 1, 1)] if minimal else boccases.OPTSETS):
         tag = f'idx{idx}crc{crc}cache{cache}'
         ok, boc = call(root.to_boc, bool(idx), bool(crc), bool(cache))
         if not ok:
@@ -40,7 +41,7 @@ def check(case):
         if not isinstance(boc, (bytes, bytearray)):
             return Fail('to_boc/not-bytes', tag)
         forms = [('bytes', bytes(boc))]
-        if not light or (idx, crc, cache) == (1, 1, 0):
+        if not minimal and (not light or (idx, crc, cache) == (1, 1, 0)):
             forms += [('hex', boc.hex()), ('HEX', boc.hex().upper()), ('base64', base64.b64encode(boc).decode())]
         first = None
         for fname, data in forms:
@@ -57,6 +58,8 @@ def check(case):
                 ok, lst = call(Cell.from_boc, data)
                 if not ok or len(lst) != 1 or lst[0].hash != parsed.hash or rc.structurally_equal_lib(root_r, lst[0]):
                     return Fail('entry/Cell.from_boc-differs', f'{tag}: {lst!r}')
+            if minimal:
+                continue
             # other entry points
             ok, s = call(lambda: Slice.one_from_boc(data).to_cell())
             if not ok:
@@ -79,6 +82,9 @@ def check(case):
 def enum_boundary(tier):
     for name, spec in boccases.boundary_specs(tier):
         yield {'spec': spec, 'light': True, 'name': name}
+    if tier == 'quick':
+        for n in (65535, 65536):       # the 2-byte / 3-byte reference-width boundary (thorough: full matrix, 65 535..65 537)
+            yield {'spec': boccases.heap_spec(n), 'light': True, 'minimal': True, 'name': 'cells=%d/one-option-set' % n}
 
 
 def strat(tier):
